@@ -62,6 +62,20 @@ extern void m4ri_dd_mzp(char const *function, char const *file, int line, struct
 #define __M4RI_DD_MZD(M) m4ri_dd_mzd(__FUNCTION__, __FILE__, __LINE__, M)
 #define __M4RI_DD_MZP(P) m4ri_dd_mzp(__FUNCTION__, __FILE__, __LINE__, P)
 
+#elif defined(M4RI_VERIF)
+
+/* verification hook H0 (guard M4RI_VERIF): the function-exit markers report the function they are in
+ * to an optional callback (coverage attribution: which internal routines a public call reached). */
+extern void (*m4ri_verif_dd)(char const *function, int line);
+#define __M4RI_VERIF_DD() do { if (m4ri_verif_dd) m4ri_verif_dd(__FUNCTION__, __LINE__); } while (0)
+#define __M4RI_DD_INT(i) __M4RI_VERIF_DD()
+#define __M4RI_DD_RCI(rci) __M4RI_VERIF_DD()
+#define __M4RI_DD_RCI_ARRAY(rciptr, len) __M4RI_VERIF_DD()
+#define __M4RI_DD_RAWROW(rowptr, wide) __M4RI_VERIF_DD()
+#define __M4RI_DD_ROW(M, row) __M4RI_VERIF_DD()
+#define __M4RI_DD_MZD(M) __M4RI_VERIF_DD()
+#define __M4RI_DD_MZP(P) __M4RI_VERIF_DD()
+
 #else  // __M4RI_DEBUG_DUMP
 
 #define __M4RI_DD_INT(i)
